@@ -47,7 +47,7 @@ def eval_test(test, atoms, env):
         return None if v is None else (not v)
     txt = ast.unparse(test)
     if txt in atoms:
-        return atoms[txt]
+        return bool(atoms[txt])
     if isinstance(test, ast.Call) and isinstance(test.func, ast.Name) and test.func.id == 'bool' \
             and len(test.args) == 1:
         return eval_test(test.args[0], atoms, env)
@@ -66,7 +66,15 @@ def eval_test(test, atoms, env):
     if isinstance(test, ast.Compare) and len(test.ops) == 1:
         a, b = _val(test.left, atoms, env), _val(test.comparators[0], atoms, env)
         op = test.ops[0]
+        if isinstance(op, (ast.Is, ast.IsNot)) and (a is None or b is None) and \
+                (a is UNKNOWN or b is UNKNOWN):
+            other = test.left if a is UNKNOWN else test.comparators[0]
+            if _never_none(other, env):
+                return isinstance(op, ast.IsNot)
         if a is UNKNOWN or b is UNKNOWN:
+            t2 = ast.unparse(_subst(test, env))     # the test in terms of what the names hold
+            if t2 in atoms:
+                return bool(atoms[t2])
             return None
         if isinstance(op, (ast.Eq, ast.Is)):
             return a == b if isinstance(op, ast.Eq) else (a is b or (a == b and type(a) is type(b)))
@@ -88,6 +96,26 @@ def eval_test(test, atoms, env):
         except TypeError:
             return None
     return None
+
+
+def _never_none(e, env, depth=0):
+    """expressions that cannot evaluate to None: arithmetic, displays, non-None literals"""
+    if depth > 10:
+        return False
+    if isinstance(e, ast.Name):
+        v = env.get(e.id, UNKNOWN)
+        if isinstance(v, ast.AST):
+            return _never_none(v, env, depth + 1)
+        return v is not UNKNOWN and v is not None
+    if isinstance(e, ast.Constant):
+        return e.value is not None
+    if isinstance(e, (ast.Tuple, ast.List, ast.Dict, ast.Set, ast.JoinedStr, ast.ListComp,
+                      ast.DictComp, ast.SetComp, ast.Compare, ast.BoolOp)):
+        return not isinstance(e, ast.BoolOp)
+    if isinstance(e, ast.BinOp) and isinstance(e.op, (ast.Add, ast.Sub, ast.Mult, ast.Div,
+                                                      ast.FloorDiv, ast.Mod, ast.Pow)):
+        return True
+    return False
 
 
 def _val(e, atoms, env):
